@@ -2,7 +2,7 @@
    Statements only; proofs are in Proofs/Inv.v and Proofs/Reach.v. *)
 From Coq Require Import List NArith.
 From Minimq Require Import Bytes Varint Utf8 Props Ser De Reader Arena Core Show Machine Parse Run.
-From Minimq Require Import Inv Reach.
+From Minimq Require Import Inv Reach AllocExact.
 Import ListNotations.
 
 (* the identifiers of the operations still waiting for their final acknowledgement: retained
@@ -31,6 +31,23 @@ Theorem C07_allocator_total : forall s s' id,
   OInv (s_ob s) -> id_ok (s_pid s) -> next_packet_id s = (s', id) -> id <> 0%N.
 Proof. exact allocator_total. Qed.
 
+(* The allocator exactly: the identifier handed out is the first candidate, in the cyclic order 1..65535 starting
+   at the counter (cand k = k-fold wrapping successor that skips 0), that is not in flight; every earlier candidate
+   is in flight; the counter is left at its successor.  So nothing but identifiers in use is ever skipped, and the
+   identifier a request receives is a function of the counter and the in-flight set alone. *)
+Theorem C07_allocator_exact : forall s s' id,
+  OInv (s_ob s) -> id_ok (s_pid s) -> next_packet_id s = (s', id) ->
+  exists k, (k < 17)%nat /\ id = cand k (s_pid s) /\ s_pid s' = pid_succ id /\
+            ~ In id (in_flight s) /\
+            forall j, (j < k)%nat -> In (cand j (s_pid s)) (in_flight s).
+Proof. exact next_packet_id_exact. Qed.
+
+(* a counter value that is not in flight is handed out as it is *)
+Theorem C07_allocator_no_skip : forall s s' id,
+  OInv (s_ob s) -> id_ok (s_pid s) -> next_packet_id s = (s', id) ->
+  ~ In (s_pid s) (in_flight s) -> id = s_pid s.
+Proof. exact next_packet_id_no_skip. Qed.
+
 (* non-vacuity: a state just before the wrap with identifiers 65535 and 1 in flight: the allocator skips both *)
 Example C07_wrap_example :
   let o := {| ob_buf := zerosN 64; ob_used := 8; ob_ctl := [];
@@ -43,3 +60,5 @@ Proof. vm_compute. reflexivity. Qed.
 Print Assumptions C07_ids_distinct.
 Print Assumptions C07_fresh.
 Print Assumptions C07_allocator_total.
+Print Assumptions C07_allocator_exact.
+Print Assumptions C07_allocator_no_skip.
